@@ -419,6 +419,82 @@ example :
     embosscMain (σ := Unit) (.ir () []) (fun _ => ("H".toList, [])) false (some []) none "m.emb".toList
       ⟨fun _ => true, fun _ => true⟩ = .raised "FileNotFoundError" := by decide
 
+/-- **End to end: `embossc` on the modelled pipeline.**  For any per-file parser and passes
+that never return an empty group, any finite import graph (fuel beyond the number of reachable
+files), `stop_before_step = None` (the executables never set it), a back end that never returns
+an empty group and a writable output location: the run is `exit 0` with the header written, or
+`exit 1` with the rendered errors on stderr — never a traceback, never out of fuel.  The passes,
+the per-file parser and the back end are abstract: this is the plumbing half of the property;
+that they do not raise themselves is the exploration's half. -/
+theorem C16_embossc_end_to_end {σ : Type} (parse : String → Parsed) (mk : List String → σ)
+    (passes : List (Pass σ)) (root : String) (U : List String)
+    (hU : ∀ f, Reach parse root f → f ∈ U) (fuel : Nat) (hfuel : U.length < fuel)
+    (hparse : ∀ f, ∀ g ∈ (parse f).errors, g ≠ [])
+    (hpass : ∀ p ∈ passes, ∀ s, ∀ g ∈ (p.run s).2, g ≠ [])
+    (sources : σ → List (String × Text)) (back : σ → Text × Errors)
+    (hback : ∀ s, ∀ g ∈ (back s).2, g ≠ [])
+    (color : Bool) (op ofile : Option Text) (input : Text) (fs : OutFs)
+    (hdir : dirname (embosscOutput op ofile input) ≠ [])
+    (hmk : fs.makedirs (dirname (embosscOutput op ofile input)) = true)
+    (hwr : fs.openWrite (embosscOutput op ofile input) = true) :
+    ∃ front, frontOf (parseEmbossFile parse mk passes none fuel root) sources = .ok front ∧
+      ((∃ t, embosscMain front back color op ofile input fs = .exit 1 t none) ∨
+       (∃ h, embosscMain front back color op ofile input fs =
+          .exit 0 [] (some (embosscOutput op ofile input, h)))) := by
+  cases hout : parseEmbossFile parse mk passes none fuel root with
+  | outOfFuel =>
+    exfalso
+    unfold parseEmbossFile at hout
+    split at hout
+    · rename_i hq
+      exact (C16_import_queue_terminates parse root U hU fuel hfuel).1 hq
+    · cases hout
+    · rename_i files _
+      simp only [processIr] at hout
+      exact processLoop_no_fuel none passes (mk files) [] hout
+  | crash c =>
+    exfalso
+    unfold parseEmbossFile at hout
+    split at hout
+    · cases hout
+    · cases hout
+    · rename_i files _
+      obtain ⟨_, n, hn, _⟩ := C16_process_ir_asserts passes none (mk files) c hout
+      cases hn
+  | ir s =>
+    refine ⟨.ir s (sources s), rfl, ?_⟩
+    rcases C16_embossc_exit (.ir s (sources s)) back color op ofile input fs
+        (by intro es h; cases h) (by intro s' src h; cases h; exact hback _) hdir hmk hwr with
+      ⟨es, t, h, _⟩ | ⟨s', src, t, _, _, _, h⟩ | ⟨s', src, _, _, h⟩
+    · cases h
+    · exact Or.inl ⟨t, h⟩
+    · exact Or.inr ⟨_, h⟩
+  | errors es =>
+    refine ⟨.errors es, rfl, ?_⟩
+    have hwf := (C16_errors_nonempty parse mk passes none fuel root es hout).2 hparse hpass
+    rcases C16_embossc_exit (σ := σ) (.errors es) back color op ofile input fs
+        (by intro es' h; cases h; exact hwf) (by intro s' src h; cases h) hdir hmk hwr with
+      ⟨es', t, _, _, h⟩ | ⟨s', src, t, h, _⟩ | ⟨s', src, h, _⟩
+    · exact Or.inl ⟨t, h⟩
+    · cases h
+    · cases h
+
+/-- Non-vacuity: a two-file project whose import is unreadable ends in exit 1 with the
+"Unable to read file." group on stderr. -/
+example :
+    let parse : String → Parsed := fun f =>
+      if f = "top.emb" then ⟨[], ["", "dep.emb"]⟩
+      else if f = "" then ⟨[], []⟩ else ⟨[unreadableGroup f ["import path .".toList]], []⟩
+    (match frontOf (parseEmbossFile parse (fun _ => ()) ([] : List (Pass Unit)) none 9 "top.emb")
+        (fun _ => []) with
+     | .ok front =>
+       (match embosscMain front (fun _ => ([], [])) false none none "top.emb".toList
+          ⟨fun _ => true, fun _ => true⟩ with
+        | .exit 1 t none => t.take 35 == "dep.emb:1:1: error: Unable to read ".toList
+        | _ => false)
+     | .error _ => false) = true := by decide
+
+
 /-- `make_error_from_parse_error` returns exactly one group of exactly one message, located
 at the token (or at the default location when the token has none — the empty-input case),
 never synthetic unless the token is. -/
